@@ -310,6 +310,10 @@ type op struct {
 	// which of several equally old objects wins a conflict is property C17's subject (tie-rich worlds are
 	// generated by the determ engine), and arrival order must not leak into this comparison through ties.
 	TS int64
+	// K is set for Kubernetes operations of strata K and Z (Kind is then a pseudo kind "k8s.<Kind>", Spec nil).
+	K *kop `json:"-"`
+	// Z is set for steps of the on-demand ztunnel client itself (stratum Z): subscribe / unsubscribe an Address name.
+	Z *zop `json:"-"`
 }
 
 func (o op) String() string {
